@@ -19,6 +19,7 @@ pub mod c17;
 pub mod c18;
 pub mod c19;
 pub mod c20;
+pub mod multi;
 pub mod sm2util;
 pub mod sm9util;
 
